@@ -6,7 +6,7 @@ from . import common
 
 NAME = "U-cb"
 TOOL = "verus"
-PROPS = ["C03", "C04", "C13", "C16", "C01", "C15"]
+PROPS = ["C03", "C04", "C13", "C16", "C01", "C15", "C02", "C14"]
 RLIMIT = 150
 TRUSTED = ["verus 0.2026.09.13 + z3", "vstd specifications of Vec (index/get/push/truncate/split_off/append), slice::Iter::next, String ==/clone (A-vstd)",
            "std::fmt `{}` renders integers in decimal (A-fmt, R4)"]
@@ -72,6 +72,7 @@ pub open spec fn flow_sizes_ok(seg: Seq<AsmLine>) -> bool {
         _ => true }
 }
 
+pub open spec fn prot(l: AsmLine) -> bool { match l { AsmLine::Instruction(i) => i.protected, _ => false } }
 pub open spec fn is_br(l: AsmLine, m: AsmMnemonic, name: Seq<char>) -> bool { match l { AsmLine::Instruction(i) => i.mnemonic == m && i.dasm_operand@ == name, _ => false } }
 pub open spec fn inverse(m: AsmMnemonic) -> AsmMnemonic {
     match m { AsmMnemonic::BEQ => AsmMnemonic::BNE, AsmMnemonic::BNE => AsmMnemonic::BEQ, AsmMnemonic::BMI => AsmMnemonic::BPL, AsmMnemonic::BPL => AsmMnemonic::BMI,
@@ -303,6 +304,9 @@ def build(repo):
                     assert(only_flow(new_seg)); //@ C03,C01,C15:repair-only-branches
                     assert(flow_sizes_ok(new_seg)); //@ C04,C03:lit-cb-sizes
                     assert(only_flow(old_seg)); //@ C03,C01,C15:repair-removes-only-branches
+                    // a branch of the repair that is followed by another conditional branch shares the flags of one comparison with it: the optimizer may not
+                    // fold it away together with that comparison (it is marked protected, as generate_branch_instruction marks its own)
+                    assert(forall|k: int| 0 <= k < new_seg.len() - 1 && is_cbl(#[trigger] new_seg[k]) && is_cbl(new_seg[k + 1]) ==> prot(new_seg[k])); //@ C02,C14,C01:repair-branch-before-a-branch-is-protected
                     %(tgt_hint)s
                     %(lab2_hint)s
                     // every flag combination takes the same exit (A-fixfresh as hypothesis)
